@@ -21,7 +21,12 @@ def run(ctx):
         "Server kinds: tcp (one server per list, all in one server command) and websocket (two paths, every ordered pair of subsets) exhaustively for "
         "tables of 1-2 channels (thorough: tcp 1-3, websocket 3 channels with seeded pairs); websocket also one client per configuration on a variant of a path (case, prefix, extension, unknown); "
         "unix, udp(KCP), stdio, dns sampled with tables of 1-4 channels; allow-lists naming unknown channels must fail start-up (else judged by the model). "
-        "Distinct = (kind, table, allow-lists, endpoint, via, name/script position); non-trivial = an outcome was observed and the barrier completed.",
+        "Concurrent family: on configurations with >= 2 exposed channels, bursts of 8 (udp 6, dns 3) simultaneous requests for DIFFERENT allowed names "
+        "(every third burst mixed with refused names) on ONE session, through the real client (several listeners -> Upstreams.Connect at once) and through "
+        "the raw client (several smux streams at once); per request: the banner it receives and eight bytes it pushes must belong to the target of ITS name "
+        "(no global counting while a burst is in flight; accept-queue barrier after each burst; every accepted socket must carry a requester's bytes); the "
+        "verifhook point server.stream.accepted is used to line the streams of a burst up (seeded sub-millisecond hold, delay only). "
+        "Distinct = (kind, table, allow-lists, endpoint, via, name/script position/burst slot); non-trivial = an outcome was observed and the barrier completed.",
         ["all targets are the harness's own listeners, so 'no outbound connection to any target' is observable",
          "a connection the server would make long after it has answered the requester is only caught by a later barrier of the same configuration",
          "loopback sockets / in-process pipes stand for the network"],
